@@ -227,3 +227,18 @@ Print Assumptions compress_HC_destSize_mid_strict.
 Print Assumptions compress_HC_fastReset_mid_sound.
 Print Assumptions compress_HC_destSize_mid_sound.
 Print Assumptions mid_history_sound.
+
+(* sizes that are negative or above LZ4_MAX_INPUT_SIZE yield 0 (srcSize is an int: |srcSize| <= 2^31) *)
+Theorem compress_HC_fastReset_mid_bad_size c src srcSize cap :
+  -2147483648 <= srcSize < 2147483648 -> (srcSize < 0 \/ LZ4_MAX_INPUT_SIZE < srcSize) ->
+  hr_ret (compress_HC_fastReset_mid c src srcSize cap) = 0.
+Proof.
+  intros Hint Hbad. unfold compress_HC_fastReset_mid.
+  destruct (hc_init_internal (hc_reset_fast c)) as [c1 start].
+  unfold hc_generic_mid.
+  assert (Hu : (u32 srcSize >? LZ4_MAX_INPUT_SIZE) = true).
+  { unfold u32, M32, LZ4_MAX_INPUT_SIZE in *. destruct Hbad as [Hn|Hb]; Z.div_mod_to_equations; lia. }
+  rewrite Hu.
+  destruct (cap <? compressBound srcSize); cbn; reflexivity.
+Qed.
+Print Assumptions compress_HC_fastReset_mid_bad_size.
